@@ -53,6 +53,12 @@ pub fn check_new(c: &NewCase, st: &mut Stats) -> Result<(), String> {
                 st.class("second_60");
             }
             // the same instant through the other constructors compares equal and has the same instant
+            // (23:59:60 of the last representable day denotes a civil second beyond the calendar: the instant-based constructors legitimately refuse it)
+            let local = unix + c.ltt.off as i128;
+            if local > cal::max_unix() as i128 || local < cal::min_unix() as i128 {
+                st.class("second_60_beyond_calendar_end");
+                return Ok(());
+            }
             let e = DateTime::from_timespec_and_local(unix as i64, f.ns, ltt).map_err(|e| format!("{c:?}: from_timespec_and_local refused: {e:?}"))?;
             check_dt(&e)?;
             if e != d || e.partial_cmp(&d) != Some(Ordering::Equal) || e.unix_time() != d.unix_time() {
